@@ -229,6 +229,9 @@ pub fn run(c: &Case, rep: &mut Report) {
         rep.count("pairs", n);
         rep.observe("labels", label);
     }
+    if let Some(n) = end.num("resequenced") {
+        rep.count("sequences-moved-into-new-sequences-by-a-transformation", n);
+    }
     if pairs_checked >= 5 {
         rep.nontrivial(c, "");
     }
